@@ -50,3 +50,24 @@ Definition Q (distinct : bool) (items : list sitem) (f : option from) (w : optio
              (h : option (aggf * option expr * binop * sval)) (o : list (nat * bool)) (lim off : option nat) : select :=
   {| q_distinct := distinct; q_items := items; q_from := f; q_where := w; q_group := g; q_having := h;
      q_order := o; q_limit := lim; q_offset := off |}.
+
+(** * Crash cases (harness mode [crash]): after every action, the contents the committed transactions define.
+    A reopened crash image must show the dump of the last acknowledged action (or, when a commit was in
+    progress, that of the action in progress). *)
+Definition dump_db (d : db) (tids : list N) : string :=
+  join "," (map (fun tid => "t" ++ showN tid ++ "=" ++
+                   match get_table d tid with
+                   | Some t => show_rows true (List.length (t_cols t)) (map snd (t_rows t))
+                   | None => "absent"
+                   end) tids).
+
+Fixpoint run_crash_actions (st : state) (tids : list N) (acts : list (action * bool)) : list string :=
+  match acts with
+  | [] => []
+  | (a, sorted) :: r =>
+      let '(res, st') := step st a in
+      (show_aresult sorted res ++ "~" ++ dump_db (committed st') tids) :: run_crash_actions st' tids r
+  end.
+
+Definition run_crash_case (tids : list N) (acts : list (action * bool)) : string :=
+  join " | " (run_crash_actions init_state tids acts).
